@@ -13,3 +13,4 @@ CONSTANTS
  EmptyData = "d0"
  CopyOn = FALSE
  CopyMiss = {}
+ Handles = {1}
